@@ -9,6 +9,8 @@ CONFIG = {
     "theorems": [
         "V.C07.allowed_eq_spec",
         "V.C07.ctx_allowed_eq_spec",
+        "V.C07.ctx_dispatch_eq_spec",
+        "V.C07.ctx_dispatchPL_eq_spec",
         "V.C07.create_eq_spec",
         "V.C07.aliases_eq_spec",
         "V.C07.member_eq_spec",
@@ -22,15 +24,20 @@ CONFIG = {
         "V.C07.redaction_eq_spec",
         "V.C07.default_eq_spec",
         "V.C07.different_rooms_refused",
+        "V.C07.reused_checker_refuses_different_rooms",
         "V.C07.no_panic_allowed",
         "V.C07.spec_delta_documented",
         "V.C07.witnesses_model_eq_library",
         "V.C07.repaired_witnesses",
+        "V.C07.repaired_witnesses_r4",
         "V.C07.version_switches_eq_spec",
         "V.C07.spec_table_stable",
     ],
     "rule": "random room states (create / power_levels / join_rules / members / third-party invites with real ed25519 signatures, "
-            "16 versions) x event under test of every class, plus (gen_authspace.go) the named witnesses of VProps/C07.lean and the "
+            "16 versions; power-levels auth events with junk / null / float levels, i.e. unreadable ones, in the incoherent half) x event "
+            "under test of every class (power-levels events incl. a JSON null in place of a level, of a map of levels or of one of its "
+            "values; version-12 creators changing any level), plus (gen_authspace.go) the named witnesses of VProps/C07.lean (D1-D17, F1-F5, "
+            "and A1-A4: the round-4 defects) and the "
             "bounded-exhaustive membership rule space: version x (sender = target?) x sender's membership x target's previous "
             "membership x new membership x join rule (7 values incl. absent / unknown) x sender level vs threshold (<,=,>) x target "
             "level vs sender level (<,=,>) x create present x m.federate / domains x authoriser state x power-levels event present, "
@@ -50,5 +57,14 @@ CONFIG = {
         "spec rule 2 (the auth_events list itself), size limits and signatures are outside Allowed's interface (C14, C17, C06)",
         "D16 / D17 and five differences repaired in /repo (6fda2cc, 17893e1, 81e30aa, ba68227, c0fa8cc) were found while proving C07; "
         "the former failing inputs are the theorem repaired_witnesses and part of corpus/C07/auth.ops",
+        "round 4 (audit): four more defects where rules and model had both been transcribed from the code - v12 creators judged at "
+        "users_default for notification levels, null accepted as an integer level from version 10, an unreadable power-levels auth "
+        "event zeroing every threshold, knock -> leave in versions without knocking - repaired in /repo (548eba1, 33ac4f7, d1e42dd, "
+        "dbee289); the rules now say: creators are privileged for EVERY comparison of rule 10 (powerOfWith sv.creators), rule 10.1-10.3 "
+        "is the independent predicate integerContent, a present but unreadable power-levels auth event refuses every event judged "
+        "against the power levels (all but m.room.create / m.room.aliases), 5.5.1 has `knock` only from version 7; theorem "
+        "repaired_witnesses_r4, corpus/C07/auth.ops",
+        "`present` for a key of the power-levels content is what encoding/json assigns to the struct field (GoJson.lookupField: "
+        "case-folded, last member wins)",
     ],
 }
